@@ -48,7 +48,11 @@ def child_main():
     real_node2stan = n2s_mod.node2stan
 
     def patched_node2stan(node, linker, *a, **k):
-        if 'BOOM' in node.astext():
+        try:
+            t = node.astext() if hasattr(node, 'astext') else ''.join(n.astext() for n in node)
+        except Exception:  # noqa
+            t = ''
+        if 'BOOM' in t:
             raise ValueError('injected renderer failure')
         return real_node2stan(node, linker, *a, **k)
     n2s_mod.node2stan = patched_node2stan
@@ -72,7 +76,7 @@ def child_main():
         def __init__(self, spec):
             fields = []
             for i, f in enumerate(spec.get('fields', [])):
-                fields.append(Field(f['tag'], None, StubParsed(f['body']), i + 1))
+                fields.append(Field(f['tag'], f.get('arg'), StubParsed(f['body']), i + 1))
             super().__init__(fields)
             self.spec = spec
             self.calls = {'to_stan': 0, 'to_node': 0}
@@ -146,6 +150,30 @@ def child_main():
         import html
         return html.unescape(s)
 
+    def stan_text(t):
+        """visible text of a stan tree, by walking it (flatten() cannot encode lone surrogates)"""
+        acc = []
+        def walk(x):
+            if isinstance(x, str):
+                acc.append(x)
+            elif isinstance(x, bytes):
+                acc.append(x.decode('utf-8', 'replace'))
+            elif isinstance(x, Tag):
+                for k in x.children:
+                    walk(k)
+            elif isinstance(x, (list, tuple)):
+                for k in x:
+                    walk(k)
+            elif x is None:
+                pass
+            elif hasattr(x, '__iter__'):
+                for k in list(x):
+                    walk(k)
+            else:
+                acc.append('<%s>' % type(x).__name__)
+        walk(t)
+        return ''.join(acc)
+
     def classify_docstring(div):
         """format_docstring returns div(body, fieldtable)."""
         kids = list(div.children)
@@ -188,14 +216,14 @@ def child_main():
             return ['mark', p.spec['id']]
         if isinstance(p, epydoc2stan.ParsedStanOnly):
             return ['stanonly', classify(p._fromstan)]
-        m = None
         try:
-            m = re.search(r'ZQ(\d+)ZQ', p.to_node().astext())
+            t = p.to_node().astext()
         except Exception:  # noqa
-            pass
+            return ['other', type(p).__name__]
+        m = re.search(r'ZQ(\d+)ZQ', t)
         if m:
             return ['mark', int(m.group(1))]
-        return ['other', type(p).__name__]
+        return ['rst', t]
 
     # ------------------------------------------------------------------ inject
     def run_inject(case):
@@ -330,9 +358,11 @@ def child_main():
         b.buildModules()
         return system
 
+    REF_CACHE = {}
+
     def other_output(system):
         o = system.allobjects['m.Other']
-        return [flatten(epydoc2stan.format_docstring(o)), flatten(epydoc2stan.format_summary(o)),
+        return [stan_text(epydoc2stan.format_docstring(o)), stan_text(epydoc2stan.format_summary(o)),
                 'm.Other' in system.parse_errors['docstring']]
 
     def run_real(case):
@@ -347,6 +377,33 @@ def child_main():
             reports.append([self.fullName(), section, descr[:120]])
             return orig_report(self, descr, section, lineno_offset, thresh)
         model.Documentable.report = report
+        events = []          # what the real parser did for each docstring it was given
+
+        def wrap_get_parser(docformat, obj=None):
+            real = real_get_parser(docformat, obj)
+
+            def parser(doc, errs):
+                n0 = len(errs)
+                try:
+                    res = real(doc, errs)
+                except ParseError as e:
+                    events.append([doc, 'ParseError', len(errs) - n0])
+                    raise
+                except Exception as e:  # noqa
+                    events.append([doc, type(e).__name__, len(errs) - n0])
+                    raise
+                events.append([doc, None, len(errs) - n0])
+                return res
+            return parser
+        fb_calls = []
+        real_fb = epydoc2stan.format_docstring_fallback
+
+        def wrap_fb(errs, parsed_doc, ctx):
+            fb_calls.append(ctx.fullName())
+            return real_fb(errs, parsed_doc, ctx)
+        epydoc2stan.get_parser_by_name = wrap_get_parser
+        epydoc2stan.format_docstring_fallback = wrap_fb
+        out['qn'] = qn
         try:
             with contextlib.redirect_stdout(io.StringIO()):
                 system = build(src, fmt, pt)
@@ -364,12 +421,29 @@ def child_main():
                 s2 = epydoc2stan.format_summary(ob)
                 out['second_call_reports'] = len([r for r in reports[n1:] if r[1] == 'docstring' and r[2].startswith('bad docstring')])
                 out['stage'] = 'flatten'
-                out['body'] = flatten_text(d)
-                out['body_html'] = flatten(d)[:400]
-                out['summary'] = flatten_text(s1)[:300]
-                out['summary2'] = flatten_text(s2)[:300]
-                out['toc'] = None if t is None else flatten_text(t)[:200]
-                out['body_kind'] = classify_docstring(d)['body'][0]
+                out['flatten_error'] = None
+                for what, st in (('body', d), ('summary', s1), ('toc', t)):
+                    if st is None:
+                        continue
+                    try:
+                        flatten(st)
+                    except Exception as e:  # noqa
+                        out['flatten_error'] = '%s: %s' % (what, str(e).strip().splitlines()[-1][:160])
+                        break
+                out['stage'] = 'observe'
+                out['body'] = stan_text(d)
+                out['body_html'] = stan_text(d)[:400]
+                out['summary'] = stan_text(s1)[:300]
+                out['summary2'] = stan_text(s2)[:300]
+                out['toc'] = None if t is None else stan_text(t)[:200]
+                cd = classify_docstring(d)
+                out['body_kind'] = cd['body'][0]
+                out['pre_text'] = cd['body'][1] if cd['body'][0] == 'pre' else None
+                out['broken_fields'] = len([x for x in cd['fields'] if x == ['broken']])
+                mine = [e for e in events if e[0] == text_of_target(ob, case)]
+                out['parser_raised'] = next((e[1] for e in mine if e[1]), None)
+                out['recovered_errs'] = max([e[2] for e in mine if not e[1]] or [0])
+                out['fallback_called'] = qn in fb_calls
                 out['in_parse_errors'] = qn in system.parse_errors['docstring']
                 out['parse_errors'] = sorted(n for n in system.parse_errors['docstring'])
                 out['reports_obj'] = len([r for r in reports if r[0] == qn and r[2].startswith('bad docstring')])
@@ -378,8 +452,9 @@ def child_main():
                 out['parsed_kind'] = type(pd).__name__ if pd is not None else None
                 out['stage'] = 'other'
                 out['other'] = other_output(system)
-                ref = build(CLEAN_SRC, fmt, pt)
-                out['other_ref'] = other_output(ref)
+                if (fmt, pt) not in REF_CACHE:
+                    REF_CACHE[(fmt, pt)] = other_output(build(CLEAN_SRC, fmt, pt))
+                out['other_ref'] = REF_CACHE[(fmt, pt)]
                 out['stage'] = 'done'
         except Exception as e:  # noqa
             tb = traceback.extract_tb(e.__traceback__)
@@ -387,7 +462,14 @@ def child_main():
             out['where'] = ['%s:%d:%s' % (os.path.basename(f.filename), f.lineno, f.name) for f in tb[-4:]]
         finally:
             model.Documentable.report = orig_report
+            epydoc2stan.get_parser_by_name = real_get_parser
+            epydoc2stan.format_docstring_fallback = real_fb
         return out
+
+    def text_of_target(ob, case):
+        # the docstring text the parser was given for the target object: what the builder stored at parse time.
+        # (_handlePropertyDef may replace obj.docstring by '' afterwards.)
+        return case.get('_parsed_text', ob.docstring)
 
     # ------------------------------------------------------------------ epytext tail
     def run_epytail(case):
